@@ -2,6 +2,7 @@
 import copy
 
 import dask.bag
+from dask import delayed as dask_delayed
 import numpy as np
 
 from .. import coqio as cq
@@ -33,6 +34,15 @@ def run(chk):
         r.shuffle(y)                                  # unsorted labels, partitions mix classes
         ctx = {"ubm_means": hexlist(ubm.means), "ubm_vars": hexlist(ubm.variances), "stats": fa.dump_stats(stats), "labels": y}
         nparts = list(range(1, n + 1)) if chk.tier == "thorough" else sorted(set([1, 2, 3, n - 1, n]))
+        # uneven partition sizes (from_sequence only makes equal ones): built from delayed lists
+        uneven = [(1, n - 3, 2), (2, 1, n - 3)] + [gen.random_composition(r, n, 5) for _ in range(1 if chk.tier == "quick" else 6)]
+        uneven = [u for u in dict.fromkeys(uneven) if len(set(u)) > 1 and min(u) >= 1 and sum(u) == n]
+
+        def bag_of(k):
+            if isinstance(k, tuple):
+                return dask.bag.from_delayed([dask_delayed(list)(blk) for blk in gen.split_rows(stats, k)])
+            return dask.bag.from_sequence(stats, npartitions=k)
+        nparts = nparts + uneven
         # ------------------------------------------------------------ ISV / JFA
         for kind in ("isv", "jfa"):
             def mk():
@@ -44,17 +54,17 @@ def run(chk):
                     for sd in seeds:
                         def job():
                             m = mk()
-                            m.fit(dask.bag.from_sequence(stats, npartitions=k), y)
+                            m.fit(bag_of(k), y)
                             return m
                         try:
                             m, sch = dasksched.run_under(100 * chk.seed + sd, iso, job)
                         except Exception as e:
-                            chk.fail("%s.fit(bag with %d partitions) raises %r" % (kind.upper(), k, e), dict(ctx, kind=kind, npartitions=k, isolated=iso, order_seed=sd))
+                            chk.fail("%s.fit(bag with %s partitions) raises %r" % (kind.upper(), k, e), dict(ctx, kind=kind, npartitions=k, isolated=iso, order_seed=sd))
                             continue
-                        chk.count(1, key=(kind, k % 2, iso))
+                        chk.count(1, key=(kind, (k % 2) if isinstance(k, int) else "uneven", iso))
                         bad = [nm for nm, a, b in (("U", m.U, ref.U), ("D", m.D, ref.D)) + ((("V", m.V, ref.V),) if kind == "jfa" else ()) if not close(a, b)]
                         if bad:
-                            chk.fail("%s trained from a bag with %d partitions differs from the in-memory list in %s (order seed %d, isolated=%s)"
+                            chk.fail("%s trained from a bag with %s partitions differs from the in-memory list in %s (order seed %d, isolated=%s)"
                                      % (kind.upper(), k, bad, sd, iso), dict(ctx, kind=kind, npartitions=k, isolated=iso, order_seed=sd,
                                                                            executed_order=sch.orders[-1] if sch.orders else []))
         # ------------------------------------------------------------ i-vector (pairwise tree reduction: odd and even)
@@ -66,22 +76,22 @@ def run(chk):
             for iso in (False, True):
                 for sd in seeds[:2]:
                     def jobi():
-                        return iv.fit_machine(ubm, dask.bag.from_sequence(stats, npartitions=k), t, 2, upd, 1e-10, seed)
+                        return iv.fit_machine(ubm, bag_of(k), t, 2, upd, 1e-10, seed)
                     try:
                         m, sch = dasksched.run_under(100 * chk.seed + sd, iso, jobi)
                     except Exception as e:
-                        chk.fail("IVectorMachine.fit(bag with %d partitions) raises %r" % (k, e), dict(ctx, npartitions=k, isolated=iso))
+                        chk.fail("IVectorMachine.fit(bag with %s partitions) raises %r" % (k, e), dict(ctx, npartitions=k, isolated=iso))
                         continue
-                    chk.count(1, key=("ivector", k % 2, iso))
+                    chk.count(1, key=("ivector", (k % 2) if isinstance(k, int) else "uneven", iso))
                     if not (close(m.T, ref.T) and close(m.sigma, ref.sigma)):
-                        chk.fail("i-vector extractor trained from a bag with %d partitions differs from the in-memory list (order seed %d, isolated=%s)" % (k, sd, iso),
+                        chk.fail("i-vector extractor trained from a bag with %s partitions differs from the in-memory list (order seed %d, isolated=%s)" % (k, sd, iso),
                                  dict(ctx, npartitions=k, isolated=iso, order_seed=sd, update_sigma=upd, executed_order=sch.orders[-1] if sch.orders else []))
         # correspondence: the model on the same partition structure
         k = r.choice(nparts)
-        b = dask.bag.from_sequence(stats, npartitions=k)
+        b = bag_of(k)
         parts = [list(p) for p in dasksched.run_under(0, False, lambda: [d.compute() for d in b.to_delayed()])[0]]
         T0 = iv.t0_of(seed, C, D, t)
-        mb, _ = dasksched.run_under(0, False, lambda: iv.fit_machine(ubm, dask.bag.from_sequence(stats, npartitions=k), t, 2, upd, 1e-10, seed))
+        mb, _ = dasksched.run_under(0, False, lambda: iv.fit_machine(ubm, bag_of(k), t, 2, upd, 1e-10, seed))
         sc = max(1.0, float(np.abs(mb.T).max()))
         fterms.append("{| if_m := %s; if_C := %s; if_D := %s; if_t := %s; if_upd := %s; if_floor := %s; if_iters := %s; if_parts := %s; if_rtol := %s; if_atol := %s; if_T := %s; if_sigma := %s |}" % (
             iv.ivm_term(ubm.means, T0, ubm.variances), cq.nat(C), cq.nat(D), cq.nat(t), cq.boolean(upd), cq.fl(1e-10), cq.nat(2),
